@@ -16,7 +16,8 @@ def cases(rng, tier):
     out = []
     for i in range(n):
         a = G.gen_array(rng, depth=rng.choice([2, 3, 3, 4]), canonical_too=False,
-                        type_kw=dict(allow_union=rng.random() < 0.1))
+                        type_kw=dict(allow_union=rng.random() < 0.1),
+                        enc_kw=dict(weird_empty=0.08))
         t = a['type']
         op = rng.choice(OPS)
         axis = G.pick_axis(rng, t)
